@@ -147,7 +147,8 @@ theorem parseIntRadix_dg {r : Nat} (h2 : 2 ≤ r) (h16 : r ≤ 16) (n : Nat) :
   | cons c cs =>
     rw [hw] at hp hq
     obtain ⟨p1, p2, _⟩ := hq c (by simp)
-    unfold parseIntRadix
+    apply parseIntRadix_of_strict
+    unfold parseIntStrict
     split
     · rename_i heq; cases heq
     · rename_i heq; injection heq with a b; exact absurd a p1
@@ -158,7 +159,8 @@ theorem parseIntRadix_neg_dg {r : Nat} (h2 : 2 ≤ r) (h16 : r ≤ 16) (n : Nat)
     parseIntRadix r ('-' :: dg r n) = some (- Int.ofNat n) := by
   have hp := parse_dg h2 h16 n
   have hne := dg_ne_nil r n
-  unfold parseIntRadix
+  apply parseIntRadix_of_strict
+  unfold parseIntStrict
   split
   · rename_i heq; cases heq
   · rename_i heq; injection heq with a b; simp at a
